@@ -177,6 +177,7 @@ func LoadRepoOverlay(repo string, patterns []string, wantSSA bool, overlay map[s
 		c.AllFns = append(c.AllFns, fn)
 		c.Funcs[pkgKey(fn.Pkg.Pkg.Path())+":"+fnLocalName(fn)] = fn
 	}
+	allFnsGlobal = c.AllFns
 	sort.Slice(c.AllFns, func(i, j int) bool {
 		a, b := c.AllFns[i], c.AllFns[j]
 		if a.Pkg.Pkg.Path() != b.Pkg.Pkg.Path() {
